@@ -13,7 +13,10 @@ T1 (machine-checked contracts on the real functions, all inputs):
   te_classes.substring_lemma                         the facts about the coding-list patterns used above
 T2 (bounded): the real HttpLayer driven sans-io over enumerated request/response heads x bodies x pipelining x addon edits x
   deliveries; the octets written to the origin / client are read by an independent RFC 9112 reader (props/http1ref.py) and
-  compared with the flows recorded at the request/response hooks.
+  compared with the flows recorded at the request/response hooks; ambiguous heads must be refused (400 / 502 + close);
+  for client streams the reader accepts without leniency, the recorded flows must also equal what the client sent.
+  Request methods in the bounded inputs are RFC 9110 tokens (mitmproxy does not validate methods / targets: a non-token
+  method without whitespace is forwarded as is — noticed, outside the statement's list of ambiguity classes).
 """
 from pyvc.api import *
 from props.prelude import *
@@ -23,14 +26,14 @@ EXPLANATION = ("T1 proves, for all inputs of each function, the framing decision
                "expected_http_body_size against RFC 9112 6.3), the reader selection, the re-framing done by Http1Client.send / Http1Server.send and the "
                "reject-don't-forward behaviour of check_invalid. The end-to-end statement (an independent reader of the forwarded octets reads exactly the "
                "recorded flows) is the composition of these with h11's line splitter and body readers and with _read_headers / the request-line parser; that "
-               "composition is only checked bounded (T2) against an executable RFC 9112 reader. Seven defect classes of the unchanged tree are recorded as "
-               "known findings (KF-C01-1..7), each with a narrow input class outside which the obligations are proved / the bounded checks pass.")
+               "composition is only checked bounded (T2) against an executable RFC 9112 reader. Defect classes found are either repaired (see known_findings.d/C01.json, fixed:) "
+               "or recorded as known findings, each with a narrow input class outside which the obligations are proved / the bounded checks pass.")
 ASSUMPTIONS = [
     "h11 (ReceiveBuffer.maybe_extract_lines, ChunkedReader, ContentLengthReader, Http10Reader) is third-party: in T1 its constructors are ghost records, its behaviour is exercised only in T2",
     "bytes.lower()/str.lower()/str.upper() are uninterpreted (idempotent, length-preserving) functions; the only further fact used is: for ASCII s and a lower-case pattern R, lower(s) in R <=> s in case-insensitive R (trusted, stated in pyvc/libx_http1.py)",
-    "the three compiled validation regexes are translated to SMT regular expressions from CPython's own parse tree (pyvc/libx_http1.py: regex_language; Python's `$` = end or before a final newline); re.sub('[\\t ]*,[\\t ]*', ',', s) is uninterpreted with the exact preimages of the eight literals",
+    "the three compiled validation regexes are translated to SMT regular expressions from CPython's own parse tree (pyvc/libx_http1.py: regex_language; Python's `$` = end or before a final newline, `\\Z` = end); re.sub('[\\t ]*,[\\t ]*', ',', s) is uninterpreted with the exact preimages of the eight literals",
     "UTF-8 decoding is an uninterpreted function that is the identity on ASCII and maps non-ASCII input to non-ASCII text",
-    "inside validate_headers / expected_http_body_size / send, parse_content_length and parse_transfer_encoding are replaced by their own contracts (deterministic named predicates CLacc / TEc / TEp); int() of a non-digit accepted value (the trailing-newline class KF-C01-5) is unconstrained",
+    "inside validate_headers / expected_http_body_size / send, parse_content_length and parse_transfer_encoding are replaced by their own contracts (deterministic named predicates CLacc / TEc / TEp); accepted Content-Length values are digit strings (parse_content_length's contract)",
     "'%x' % n is an uninterpreted function of n (chunk-size formatting)",
     "header sets made invalid by an addon after validation are outside the send contracts (they assume a field list with the shape validate_headers guarantees: one unrelated field plus at most one framing field)",
     "field-list contracts are proved for <= 2 fields in the quick tier / <= 3 in the thorough tier (validate_headers) resp. <= 1 / <= 2 (expected_http_body_size); field names and values are fully symbolic",
@@ -571,9 +574,8 @@ def s_parse_cl(vc):
     rfc = in_re(vc, v, CL_RFC_S if as_str else CL_RFC_B)
     strict = in_re(vc, v, CL_STRICT_S if as_str else CL_STRICT_B)
     vc.ensure("raises_only_value_error", out.ok or issubclass(out.raised_type(), ValueError))
-    # malformed values are rejected: accepted => 1*DIGIT.  Known defect: Python's `$` also matches before a trailing "\n"
-    K = endswith(v, "\n" if as_str else b"\n")
-    vc.ensure_kf("accepted_only_if_digits", Implies(out.ok, rfc), "KF-C01-5", K)
+    # malformed values are rejected: accepted => 1*DIGIT  (`$` also matched before a trailing "\n": KF-C01-5, fixed in 9d6786045)
+    vc.ensure("accepted_only_if_digits", Implies(out.ok, rfc))
     vc.ensure("canonical_decimal_accepted", Implies(strict, out.ok))
     if out.ok:
         vc.ensure("value_is_decimal_value", Implies(rfc, out.result == str_to_int(vc, v)))
@@ -694,7 +696,7 @@ def summarise_value_parsers(vc):
         counter[0] += 1
         acc = cl_accepted(vc, value)
         vc.assume(Implies(strict, acc))
-        vc.assume(Implies(acc, And(is_ascii(vc, value), Or(rfc, endswith(value, "\n" if as_str else b"\n")))))
+        vc.assume(Implies(acc, And(is_ascii(vc, value), rfc)))   # contract parse_content_length/accepted_only_if_digits
         if vc.branch(acc):
             n = vc.fresh_int(f"cl_value{counter[0]}")
             vc.assume(Implies(rfc, And(n == str_to_int(vc, value), n >= 0)))   # decimal value of a digit string
@@ -763,7 +765,6 @@ def s_validate(vc):
     cl_val = pick(is_cl, vals, b"") if n else b""
     te_chunked, te_plain = te_class(vc, te_val, abstract=True) if n else (False, False)
     http11 = version == b"HTTP/1.1"
-    nl = Or(*[endswith(x, b"\n") for x in vals]) if n else False   # KF-C01-5: `$` accepts a trailing newline
     no_body_status = Or(And(status >= 100, status <= 199), status == 204) if kind == "response" else False
     if out.ok:
         for i in range(n):
@@ -771,7 +772,7 @@ def s_validate(vc):
         vc.ensure("ok.at_most_one_te", n_te <= 1)
         vc.ensure("ok.at_most_one_cl", n_cl <= 1)
         vc.ensure("ok.not_both", Not(And(n_te >= 1, n_cl >= 1)))
-        vc.ensure_kf("ok.cl_is_digits", Implies(n_cl >= 1, in_re(vc, cl_val, CL_RFC_B)), "KF-C01-5", nl)
+        vc.ensure("ok.cl_is_digits", Implies(n_cl >= 1, in_re(vc, cl_val, CL_RFC_B)))
         vc.ensure("ok.cl_accepted_by_parse_content_length", Implies(n_cl >= 1, cl_accepted(vc, cl_val)))
         vc.ensure("ok.te_is_known_coding_list", Implies(n_te >= 1, Or(te_chunked, te_plain)))
         vc.ensure("ok.te_only_in_http11", Implies(n_te >= 1, http11))
@@ -800,7 +801,7 @@ def s_validate_name(vc):
     out = vc.call(V + "validate_headers", msg)
     tok = in_re(vc, name, TOKEN_B)
     vc.ensure("token_accepted", Implies(tok, out.ok))
-    vc.ensure_kf("accepted_only_if_token", Implies(out.ok, tok), "KF-C01-5", endswith(name, b"\n"))
+    vc.ensure("accepted_only_if_token", Implies(out.ok, tok))   # trailing newline was KF-C01-5
     vc.ensure("raises_only_value_error", out.ok or issubclass(out.raised_type(), ValueError))
 
 
@@ -891,7 +892,7 @@ def s_ebs(vc):
     digits = in_re(vc, cl_val, CL_RFC_B) if n else True
     spec_chunked = And(Not(rule12), n_te >= 1, te_c)
     spec_len = If(rule12, 0, If(n_te >= 1, -1, If(n_cl >= 1, str_to_int(vc, cl_val), 0 if is_request else -1)))
-    in_scope = And(valid, Implies(n_cl >= 1, digits))   # (accepted non-digit Content-Length values: the trailing-newline class of KF-C01-5)
+    in_scope = And(valid, Implies(n_cl >= 1, digits))
     if not out.ok:
         vc.ensure("valid_head.no_exception", Not(valid))
         return
@@ -1177,11 +1178,12 @@ def s_server_send(vc):
         if vc.branch(len_(data) == 0):
             vc.ensure("data.empty_sends_nothing", len(tr) == 0)
             return
-        if vc.branch(Or(is_head, bodiless_status)):
-            # a response that cannot have a body: no body octets may follow the head
-            vc.ensure_kf("data.nothing_for_bodiless_response", len(tr) == 0, "KF-C01-3", True)
+        # (what follows a 101 belongs to the protocol that has been switched to: it is relayed, not a body)
+        if vc.branch(And(status != 101, Or(is_head, bodiless_status))):
+            # a response that cannot have a body: no body octets may follow the head (was KF-C01-3)
+            vc.ensure("data.nothing_for_bodiless_response", len(tr) == 0)
             return
-        vc.ensure("data.one_send", len(tr) == 1 and len(sends) == 1)
+        vc.ensure_kf("data.one_send", len(tr) == 1 and len(sends) == 1, "KF-C01-6", And(lenient_head, status != 101))
         if len(sends) == 1:
             want = hexlen(vc, len_(data)) + CRLF + data + CRLF if chunked else data
             vc.ensure("data.framed_per_forwarded_headers", sends[0].data == want)
@@ -1192,7 +1194,7 @@ def s_server_send(vc):
             if kinds[:1] == ["SendData"]:
                 vc.ensure("eom.last_chunk", tr[0].data == b"0\r\n\r\n")
         elif chunked:
-            vc.ensure_kf("eom.nothing_written_for_bodiless_response", kinds == ["ghost"], "KF-C01-3", Not(is_head))
+            vc.ensure("eom.nothing_written_for_bodiless_response", kinds == ["ghost"])   # (was KF-C01-3)
         else:
             vc.ensure("eom.nothing_written", kinds == ["ghost"])
         vc.ensure("eom.marks_response_done", len(tr) > 0 and is_ghost(tr[-1], "mark_done"))
